@@ -723,7 +723,7 @@ class Text(JupyterMixin):
             character (str, optional): Character to pad with. Defaults to " ".
         """
         assert len(character) == 1, "Character must be a string of length 1"
-        if count:
+        if count > 0:
             self.plain = f"{character * count}{self.plain}"
             _Span = Span
             self._spans[:] = [
